@@ -180,6 +180,24 @@ def rt_oracle(c, stats):
         if np.minimum(d5, 1 - d5).max() > 5.1e-5 or abs(float(b5.charges[0]) - 0.75) > 1e-9:
             raise Violation("second-write-stale", "the object was edited (position and charge of atom 0) after a first write; the "
                             "second file reads back fractional %r charge %r" % (f5.tolist(), float(b5.charges[0])))
+        # ... and a supercell of the object that has just been written (the cell changes, everything derived from it must too)
+        try:
+            with silenced():
+                sup = a.replicate((2, 1, 1))
+            t6 = save_cif(sup, fract)
+            b6 = load_cif(t6)
+        except Exception as e:
+            raise Violation("exception-in-save", "writing a supercell of an object that was written before: %s: %r" % (type(e).__name__, e))
+        f6 = geom.frac(b6.cell, np.asarray(b6.positions, float))
+        w6 = geom.frac(np.asarray(sup.cell, float), np.asarray(sup.positions, float))
+        if len(f6) != len(w6):
+            raise Violation("supercell-write", "%d atoms read back, %d written" % (len(f6), len(w6)))
+        d6 = np.abs(f6 - (w6 % 1.0))
+        d6 = np.minimum(d6 % 1.0, 1.0 - (d6 % 1.0))
+        if d6.size and d6.max() > 5.1e-5 + 1e-9:
+            i6 = int(np.argmax(d6.max(axis=1)))
+            raise Violation("supercell-write-stale", "a 2x1x1 supercell of an object that had been written before: atom %d written "
+                            "at fractional %r reads back at %r" % (i6, (w6[i6] % 1.0).tolist(), f6[i6].tolist()))
     # independent reader
     import ase.io
     try:
